@@ -833,7 +833,9 @@ where
                 if let Some(listener) = self.inner.event_listener.as_ref() {
                     listener.on_leave(Event::Evict, self.record.key(), self.record.value());
                 }
-                if self.pipe.is_enabled() {
+                // A disk-only entry that was looked up from the disk cache write queue (re-inserted with
+                // `insert_piece`) is already queued for writing; offering it again would write it twice.
+                if self.pipe.is_enabled() && self.source != Source::Memory {
                     self.pipe.send(Piece::new(self.record.clone()));
                 }
                 return;
